@@ -1,5 +1,9 @@
 import MM.Props.Exhaustive
 import MM.Props.Greedy
+import MM.Props.C04Series
 #print axioms MM.Search.C04_score_of_design
 #print axioms MM.Search.C04_greedy_score
 #print axioms MM.Search.exhaustive_sub_evaluated
+#print axioms MM.Data.C04_series
+#print axioms MM.Data.C04_series_length
+#print axioms MM.Data.C04_window
